@@ -71,3 +71,32 @@ def oracle_self_check(rep: Report) -> None:
     from vf.rtc import spec
     for e in spec.self_check():
         rep.broken.append("oracle self-check: " + e)
+
+
+def run_delegation(rep, methods):
+    """forwarding obligations (dataflow.delegation_sites) for the routed methods named in `methods`"""
+    from . import dataflow as D
+    from vf.common import Obligation
+    files = ["photon_weave/state/base_state.py", "photon_weave/state/fock.py", "photon_weave/state/polarization.py", "photon_weave/state/custom_state.py",
+             "photon_weave/state/envelope.py", "photon_weave/state/composite_envelope.py"]
+    n = 0
+    for rel in files:
+        try:
+            sites = D.delegation_sites(rel, tuple(methods))
+        except Exception as ex:
+            rep.undecided.append(f"{rel}: delegation analysis: {ex}")
+            continue
+        ordinal = {}
+        for s in sites:
+            k = ordinal.get(s["function"], 0)
+            ordinal[s["function"]] = k + 1
+            fq = f"{rel}::{s['function']}"
+            oid = f"{fq}::delegation#{k}:request-forwarded-unchanged"
+            n += 1
+            st = "discharged" if s["ok"] else "failed"
+            rep.add_ob(Obligation(oid, fq, "requires", "dataflow", st, detail=f"line {s['line']}: {s['call']}" + ("" if s["ok"] else " - " + s["why"])))
+            if not s["ok"]:
+                rep.violation(f"{fq} line {s['line']}: a routed request is not forwarded unchanged: {s['why']} (`{s['call']}`)", key=f"P:{oid}",
+                              replay={"kind": "obligation", "function": fq, "failed_obligations": [oid], "solver_output": [s["why"], s["call"]]}, no_input=True)
+    if n == 0:
+        rep.broken.append(f"no delegating call found for {methods} (vacuous)")
